@@ -70,6 +70,13 @@ func (w *Writer) Emit(line, out string, tags ...string) {
 	}
 }
 
+// Flush writes out what has been emitted so far (called before a phase that may take the process down, so that the
+// cases before it are still compared).
+func (w *Writer) Flush() {
+	w.cw.Flush()
+	w.ow.Flush()
+}
+
 func (w *Writer) Close() {
 	w.cw.Flush()
 	w.ow.Flush()
